@@ -309,6 +309,14 @@ where
                 Some(Err(e)) => run.after_end.push(format!("Err({:?})", classify(&e))),
             }
         }
+        if extra_polls > 0 {
+            // the other way of consuming what is left: an iterator that has ended yields nothing through collect_vec either
+            match it.collect_vec() {
+                Ok(v) if v.is_empty() => {}
+                Ok(v) => run.after_end.push(format!("collect_vec after the end returned Ok with {} more point(s)", v.len())),
+                Err(e) => run.after_end.push(format!("collect_vec after the end returned Err({:?})", classify(&e))),
+            }
+        }
         run
     });
     match res {
